@@ -95,8 +95,11 @@ def check(ctx):
            consequence="a current appears in the undriven uniform state")
     f_mb = repo.func(SOLVER, "TDGLSolver.update_mu_boundary")
     # current_density = (-1/L) * sum(currents...) : homogeneous of degree 1 in the currents
+    # the density by role: the local written into self.mu_boundary[...]
+    cdn = {n.value.id for n in own_nodes(f_mb.node) if isinstance(n, ast.Assign) and isinstance(n.value, ast.Name) and any(
+        isinstance(t, ast.Subscript) and norm(t.value) == "self.mu_boundary" for t in n.targets)}
     cds = [n for n in own_nodes(f_mb.node) if isinstance(n, ast.Assign) and any(
-        isinstance(t, ast.Name) and t.id == "current_density" for t in n.targets)]
+        isinstance(t, ast.Name) and t.id in cdn for t in n.targets)]
     ok = len(cds) == 1 and _is_product_with_sum(cds[0].value)
     ctx.ob("R17.3", "terminal current density is a multiple of a sum of the requested currents (zero currents => zero flux)",
            ok, detail=[norm(c) for c in cds], where=f_mb.fq, construct="current_density", loc=loc(f_mb, f_mb.node),
